@@ -1,6 +1,7 @@
 import CLModel.Proto
 import CLModel.Paths.Filter
 import CLModel.Compare.MissingFilter
+import CLModel.Paths.FilterM
 namespace Ops.C14
 open Proto Filt
 
@@ -147,6 +148,79 @@ def opCompare (toks : List String) : String :=
     | .error e => "raise " ++ e
   | none => "bad-args"
 
+
+/-! ### the composed model: pattern TEXTS instead of match tables (`c14.filterm`) -/
+
+def parseTextTok : List String → Option (Text × List String)
+  | t :: rest => (parseText t).map (fun x => (x, rest))
+  | [] => none
+
+def parsePair (toks : List String) : Option ((Text × Text) × List String) := do
+  let (k, r1) ← parseTextTok toks
+  let (v, r2) ← parseTextTok r1
+  pure ((k, v), r2)
+
+def parseRootM : List String → Option (Option Text × List String)
+  | "-" :: rest => some (none, rest)
+  | t :: rest => (parseText t).map (fun x => (some x, rest))
+  | [] => none
+
+def parsePathEntryM (u : Universe) (toks : List String) : Option (FiltM.PathEntryM × List String) := do
+  let (pat, r1) ← parseTextTok toks
+  let (ls, r2) ← parseLocs u r1
+  pure (⟨pat, ls⟩, r2)
+
+def parseRawRuleM : List String → Option (FiltM.RawRuleM × List String)
+  | "R" :: act :: rest => do
+    let act ← parseAction act
+    let (path, r1) ← match rest with
+      | "1" :: r => (parseTextTok r).map (fun (m, r') => (OneOrMany.one m, r'))
+      | "L" :: r => (parseCounted parseTextTok r).map (fun (ms, r') => (OneOrMany.many ms, r'))
+      | _ => none
+    let (key, r2) ← match r1 with
+      | "N" :: r => some (none, r)
+      | "1" :: r => (parseRawKey r).map (fun (k, r') => (some (OneOrMany.one k), r'))
+      | "L" :: r => (parseCounted parseRawKey r).map (fun (ks, r') => (some (OneOrMany.many ks), r'))
+      | _ => none
+    pure (⟨path, key, act⟩, r2)
+  | _ => none
+
+/-- CFGM := C LOCS nenv (name value)* ROOT npaths (pattern LOCS)* nrules RAWRULEM* nchildren CFGM* nexcludes CFGM* -/
+partial def parseCfgM (u : Universe) : List String → Option (FiltM.ConfigM × List String)
+  | "C" :: rest => do
+    let (locs, r1) ← parseLocs u rest
+    let (env, r2) ← parseCounted parsePair r1
+    let (root, r3) ← parseRootM r2
+    let (paths, r4) ← parseCounted (parsePathEntryM u) r3
+    let (raws, r5) ← parseCounted parseRawRuleM r4
+    let (children, r6) ← parseCounted (parseCfgM u) r5
+    let (excludes, r7) ← parseCounted (parseCfgM u) r6
+    -- cfg.add_rules(*raws) on a fresh configuration
+    pure (FiltM.ConfigM.mk locs env root paths (FiltM.addRulesM [] raws) children excludes, r7)
+  | _ => none
+
+def showPyErr : PM.PyErr → String
+  | .keyError => "K" | .missingEnv => "M" | .reError => "R" | .recursion => "C" | .typeError => "T"
+  | .indexError => "I" | .notStr => "?"
+
+/-- c14.filterm UNIVERSE CFGM nq (li pi key|-)* -> one letter per query (a verdict, or the exception class);
+    `B<letter>` when a `Matcher(...)` constructor raised while the configuration was built.
+    The configuration is built once (`FiltM.filterM cfg f k = build cfg >>= (filterS · f k)`). -/
+def opFilterM (toks : List String) : String :=
+  match (do
+    let (u, r1) ← parseUniverse toks
+    let (cfg, r2) ← parseCfgM u r1
+    let (qs, r3) ← parseCounted (parseQuery u) r2
+    if r3.isEmpty then pure (cfg, qs) else none) with
+  | some (cfg, qs) =>
+    match FiltM.build cfg with
+    | .error e => "B" ++ showPyErr e
+    | .ok s => String.join (qs.map (fun (f, k) =>
+        match FiltM.filterS s f k with
+        | .ok a => showAction a
+        | .error e => showPyErr e))
+  | none => "bad-args"
+
 def ops : List (String × (List String → String)) :=
-  [("c14.filter", opFilter), ("c14.compare", opCompare)]
+  [("c14.filter", opFilter), ("c14.compare", opCompare), ("c14.filterm", opFilterM)]
 end Ops.C14
